@@ -866,7 +866,7 @@ def run_bundled(pid, tier, t0):
     r, table = gen.tlc_cases(inst, "mirrors_" + pid.lower())
     main_rs = open(os.path.join(gen.GEN, "c20_main.rs")).read()
     name = "gen_c20"
-    gen.write_crate(name, main_rs, features=("mock-core", "mock-std", "mock-embedded-hal-1"))
+    gen.write_crate(name, main_rs, features=("mock-core", "mock-std", "mock-embedded-hal-1", "mock-tokio-1", "mock-futures-io-0-3"))
     p = gen.cargo(name, ["build", "--offline"], timeout=3000)
     if p.returncode != 0:
         log(p.stderr[-3000:])
@@ -914,7 +914,7 @@ def run_bundled(pid, tier, t0):
            "samples": [o for o in obs if o["kind"] == "diff"][:2],
            "rule": "tla/Shapes.tla Mirrors lists every method of the mirrored core/std traits (and embedded-hal DelayNs) as required or provided with the required methods its upstream body rests on (BasisIsRequired checked by TLC); the driver requires one wiring case per required method and differential runs per provided method: seeded random scripts (chunk sizes, short reads/writes, zero, Interrupted, errors, payloads, line/delimiter data) are replayed by a Unimock and by a plain struct through write_all, write_vectored, read_exact, read_to_end, read_to_string, read_vectored, read_line, read_until, Hasher::write_*, Seek::rewind/stream_position, DelayNs::delay_us/ms and format! via Display; results, buffers and the sequence of required-method calls must be equal"}
     return finish(pid, tier, "exploration", cov, ["the plain struct is the statement's own oracle; upstream provided bodies are an environment, not modelled",
-                  "tokio / futures-io mirrors have no provided methods that rest on mocked required methods besides poll_*_vectored; they are not driven here"], t0, divs)
+                  "tokio / futures-io: every required method has a wiring case, the vectored polls are compared with plain structs; is_write_vectored is only compared as part of that run"], t0, divs)
 
 
 COMMON_ASSUME = [
